@@ -2,6 +2,7 @@
 
 Must-pass-through and who-may-write rules over MIR summaries of the builder, the function table, the
 identifier predicate and the symbol table."""
+import re
 import evalsum
 from framework import Inconclusive
 from mir import callee_of
@@ -24,8 +25,47 @@ def summ(f, path, names, opaque=None):
     rows = []
     for c, r, s, rv in outs:
         calls = [(short_callee(e[1]),) + tuple(show(norm(a)) for a in e[2]) for e in s.events if e[0] == "call"]
-        rows.append({"conds": dict(c), "ret": r, "calls": calls})
+        rows.append(entry_api({"conds": dict(c), "ret": r, "calls": calls}))
     return rows
+
+
+ENTRY = re.compile(r"^BTreeMap::entry\((.*)\)$")
+
+
+def entry_api(row):
+    """the map entry API in terms of contains_key / insert:  `entry(k)` is Vacant  <=>  !contains_key(k);
+    `vacant.insert(v)` == `insert(k, v)` (std semantics), so both spellings of a guarded insertion give one row"""
+    conds = {}
+    for k, v in row["conds"].items():
+        m = ENTRY.match(k)
+        if m and v in ("is Vacant", "is Occupied"):
+            conds["BTreeMap::contains_key(%s)" % m.group(1)] = "val 0" if v == "is Vacant" else "val not:0"
+        else:
+            conds[k] = v
+    calls = []
+    for c in row["calls"]:
+        if c[0] == "BTreeMap::entry":
+            continue
+        if c[0] == "VacantEntry::insert" and len(c) == 3:
+            m = re.match(r"^BTreeMap::entry\((.*)\)\.Vacant\.0$", c[1])
+            if m:
+                # split "M, K" at the top-level comma
+                inner = m.group(1)
+                depth = 0
+                cut = None
+                for i, ch in enumerate(inner):
+                    if ch in "([":
+                        depth += 1
+                    elif ch in ")]":
+                        depth -= 1
+                    elif ch == "," and depth == 0:
+                        cut = i
+                        break
+                if cut is not None:
+                    calls.append(("BTreeMap::insert", inner[:cut], inner[cut + 1:].strip(), c[2]))
+                    continue
+        calls.append(c)
+    return {"conds": conds, "ret": row["ret"], "calls": calls}
 
 
 def closure_with_captures(f, path, captures, argnames):
